@@ -219,3 +219,55 @@ func RootOfAddr(v ssa.Value) ssa.Value {
 		}
 	}
 }
+
+// PathNonNil returns the values known to be non-nil after following path[0..upto]: those compared with nil on a branch
+// whose taken edge is the non-nil one.
+func PathNonNil(path []*ssa.BasicBlock, upto int) map[ssa.Value]bool {
+	out := map[ssa.Value]bool{}
+	for i := 0; i < upto && i+1 < len(path); i++ {
+		cond, taken, ok := BranchTaken(path[i], path[i+1])
+		if !ok {
+			continue
+		}
+		if x, trueMeansNil, ok := NilCmp(cond); ok && taken != trueMeansNil {
+			out[x] = true
+		}
+	}
+	return out
+}
+
+// ErrKnownNonNil reports whether the error value v is certainly non-nil: a freshly made error (a concrete value boxed into
+// the interface, fmt.Errorf / errors.New), a package-level sentinel, or a value in nonNil.
+func ErrKnownNonNil(v ssa.Value, nonNil map[ssa.Value]bool) bool {
+	seen := map[ssa.Value]bool{}
+	var rec func(v ssa.Value) bool
+	rec = func(v ssa.Value) bool {
+		if v == nil || seen[v] {
+			return false
+		}
+		seen[v] = true
+		if nonNil[v] {
+			return true
+		}
+		switch x := v.(type) {
+		case *ssa.MakeInterface:
+			return true
+		case *ssa.ChangeInterface:
+			return rec(x.X)
+		case *ssa.UnOp:
+			_, isGlobal := x.X.(*ssa.Global)
+			return isGlobal
+		case *ssa.Call:
+			return IsCallTo(x, "fmt", "Errorf") || IsCallTo(x, "errors", "New")
+		case *ssa.Phi:
+			for _, e := range x.Edges {
+				if !rec(e) {
+					return false
+				}
+			}
+			return len(x.Edges) > 0
+		}
+		return false
+	}
+	return rec(v)
+}
